@@ -122,7 +122,17 @@ ArcGeom(c) == IF c.shape = "chord2ry"
               ELSE LET w == ArcWPu(c) IN
                    [s |-> w[1], e |-> w[Len(w)], rx |-> IF c.shape = "circle" THEN R ELSE 2 * R, ry |-> R,
                     rot |-> IF c.shape = "ellipse90" THEN 90 ELSE 0, large |-> ArcLarge(c), sweep |-> c.ccw]
-Scenario == IF cv.type = "arc" THEN [cv |-> cv, f |-> Features, g |-> ArcGeom(cv)] ELSE [cv |-> cv, f |-> Features]
+\* ---- scale dimension (round 5) --------------------------------------------------------------------------------------
+\* The property is homogeneous of degree 1: for k > 0, way-points, gap and the radii RadW, RadV of (k * curve, k * t) are k
+\* times those of (curve, t), so Flatten(k * P, k * t) has to satisfy (S), (W), (V) after division by k -- "for all
+\* tolerances t > 0" includes tolerances and curves far below the library's absolute Epsilon = 1e-10 in AREA terms
+\* (cross products of a curve of size 1e-5 are 1e-10).  Every Bezier scenario therefore carries the decimal exponents e
+\* of the small-scale embeddings x 10^-e under which clause (T) (t0, t0/4, t0/16) and XMonotone are executed as well:
+\* 4 (cross products ~1e-8: only the tail of a subdivision gets below Epsilon), 5, 6 (lattice unit^2 = 1e-12 < Epsilon
+\* < unit), 7 (tolerances down to 6e-10, still above Epsilon as a LENGTH, so the builder's point-equality does not merge).
+ScaleExps == <<4, 5, 6, 7>>
+ScaleLaw == \A i \in 1..Len(ScaleExps) : ScaleExps[i] > 3 /\ ScaleExps[i] < 8      \* beyond scale1e-3, lengths above 1e-10
+Scenario == IF cv.type = "arc" THEN [cv |-> cv, f |-> Features, g |-> ArcGeom(cv)] ELSE [cv |-> cv, f |-> Features, sc |-> ScaleExps]
 Emit == ~done /\ done' = TRUE /\ UNCHANGED cv /\ PrintT("@@" \o ToJson(Scenario))
 Spec == Init /\ [][Emit]_vars
 
@@ -130,6 +140,7 @@ Spec == Init /\ [][Emit]_vars
 \* a parabola has constant second differences, a cubic constant third differences; way-points start and end on the end
 \* points; the 36 circle points lie on the circle in counter-clockwise order; the large flag is the one of the SVG rules
 CurveLaws ==
+    ScaleLaw /\
     CASE cv.type = "quad" -> LET p == cv.pts w == QuadWP(p) d == D2(p[1], p[2], p[3]) IN
             /\ w[1] = <<QB * p[1][1], QB * p[1][2]>> /\ w[33] = <<QB * p[3][1], QB * p[3][2]>>
             /\ \A j \in 1..31 : \A c \in 1..2 : w[j][c] - 2 * w[j + 1][c] + w[j + 2][c] = 2 * d[c]
